@@ -122,13 +122,13 @@ def run():
         for i, p in enumerate(p1):
             jobs.append(dict(name='one%d' % i, progs=[p], mode='bounded',
                              bound=2 if quick else 3, maxcp=6,
-                             limit=300 if quick else 6000, seed=chk.seed))
+                             limit=300 if quick else 1200, seed=chk.seed))
         for i, pq in enumerate(pairs):
             jobs.append(dict(name='two%d' % i, progs=pq, mode='bounded',
                              bound=1 if quick else 2, maxcp=6,
-                             limit=150 if quick else 3000, seed=chk.seed))
+                             limit=150 if quick else 500, seed=chk.seed))
             jobs.append(dict(name='rnd%d' % i, progs=pq, mode='random',
-                             nrandom=20 if quick else 200, seed=chk.seed,
+                             nrandom=20 if quick else 60, seed=chk.seed,
                              maxcp=8))
         dprogs = [[p] for p in programs(3 if quick else 4)]
         dprogs += pairs[::7] if quick else pairs[::2]
@@ -156,8 +156,13 @@ def run():
             # events); the head of the log is kept for diagnostics
             ev = t.pop('events')
             t['nev'] = len(ev)
-            t['head'] = ev[:40]
+            t['head'] = ev[:40] if len(traces) < 40 else []
             t['src'] = of
+            t['sw'] = sum(1 for a, b in zip(t['schedule'], t['schedule'][1:])
+                          if a != b)
+            t['schedule'] = ','.join(t['schedule'])
+            for k in ('done', 'dev'):
+                t.pop(k, None)
             traces[t['id']] = t
             cur.append(line)
             if len(cur) >= 400:
@@ -217,9 +222,9 @@ def run():
         t = traces[v['id']]
         if t['outcome'] == 'limit':
             nlimit += 1
-        sw = sum(1 for a, b in zip(t['schedule'], t['schedule'][1:]) if a != b)
+        sw = t['sw']
         if sw >= 2:
-            distinct.add(json.dumps([t['progs'], t['schedule']]))
+            distinct.add(hash((json.dumps(t['progs']), t['schedule'])))
         failed = set(v['failed'])
         if not failed:
             continue
@@ -233,7 +238,7 @@ def run():
         if rest:
             chk.violation(
                 'programs %s: %s' % (t['progs'], sorted(rest)),
-                dict(progs=t['progs'], schedule=t['schedule'],
+                dict(progs=t['progs'], schedule=t['schedule'].split(','),
                      maxcp=6, failed=sorted(failed), known=v['known'],
                      blocked=t['blocked'], errors=t['errors']))
         else:
@@ -250,7 +255,7 @@ def run():
                      out=r['out'][-3000:]))
     sample = None
     for t in traces.values():
-        if t['outcome'] == 'done' and t['nev'] > 30:
+        if t['outcome'] == 'done' and t['nev'] > 30 and t['head']:
             sample = t
             break
     sample = sample or next(iter(traces.values()))
@@ -270,7 +275,7 @@ def run():
         rule='a case is one complete schedule of the real solver + interface '
              'threads at primitive granularity; distinct by (programs, '
              'schedule); non-trivial when it has >= 2 context switches',
-        samples=[dict(progs=sample['progs'], schedule=sample['schedule'][:60],
+        samples=[dict(progs=sample['progs'], schedule=sample['schedule'].split(',')[:60],
                       outcome=sample['outcome'],
                       events=[[e['th'], e['ev'], e['k'], e['obj']]
                               for e in sample['head'][:40]])],
